@@ -58,7 +58,7 @@ def param_dims(db, est, weighted, pair):
     return [X1][:n]
 
 
-def est_scenarios(ctx, db, est, weighted=False, pair=False, nmin_generic=2, accessor_args=None, skip=(), only=None):
+def est_scenarios(ctx, db, est, weighted=False, pair=False, nmin_generic=2, accessor_args=None, skip=(), only=None, count_exact=None):
     """evaluate new / add / merge / every accessor of `est` on abstract states; returns a dict of
     path lists with the residuals the domain rules need"""
     out = {"add": [], "merge": [], "acc": {}}
@@ -113,7 +113,11 @@ def est_scenarios(ctx, db, est, weighted=False, pair=False, nmin_generic=2, acce
         def setup3(m, p=p):
             alg = Alg(m, est)
             alg.state_assume = state_assume
-            s = alg.sym("S", nmin=nmin_generic)
+            if count_exact is not None:
+                leaf = R.count_leaf(ctx, db, est)
+                s = alg.sym("S", nmin=count_exact, bounds={"S." + leaf: count_exact})
+            else:
+                s = alg.sym("S", nmin=nmin_generic)
 
             def thunk():
                 return call(m, p, [VRef(s, (), False)]), leaf_map(s.v)
@@ -308,7 +312,7 @@ class AtomSigns(dict):
         return default
 
 
-def r_div(ctx, db, est, scen, weighted=False, spread_assumption=True):
+def r_div(ctx, db, est, scen, weighted=False, spread_assumption=True, tag=""):
     """every float division on an obligated path has a provably non-zero divisor; square roots and
     fractional powers have a non-negative radicand.  Divisors built only from sums of squares are
     discharged by the property's own 'non-zero spread' quantifier (recorded as an assumption)."""
@@ -338,7 +342,7 @@ def r_div(ctx, db, est, scen, weighted=False, spread_assumption=True):
                 continue
             seen.add(key)
             n_ob += 1
-            ctx.ob("R-DIV", "%s:div:%s" % (where, F.show(b)[:60]), fn, R.fn_site(db, fn), ok,
+            ctx.ob("R-DIV", "%s%s:div:%s" % (tag, where, F.show(b)[:60]), fn, R.fn_site(db, fn), ok,
                    "%s: divisor %s %s [path: %s]" % (where, F.show(b)[:120], how if ok else "may be zero (%s) — 0/0 or x/0 reaches the state or the result" % how,
                                                      pc_show(pth.pc) or "unconditional"),
                    sample={"divisor": F.show(b)[:160], "sign": s, "at": site(sp)})
